@@ -5,7 +5,7 @@ import lib, storelib as S, arithlib as A
 from lib import Result, model_call, run_sharded, e_fmt, e_list, Reader, outcome
 
 RULE = ('all codes for n_word<=4 (quick) / <=6 (thorough), boundary/random codes for n_word<=32, signed and unsigned, n_frac in {0, n_word/2}, shift counts 0..n_word+3 subject to n_word+n<=62, '
-        'the three shifting modes (expand, trunc, keep), scalars and arrays (array-wide min_pow2 and word growth). Checked with exact rationals on the implementation output: expand: value(x<<n) = value*2^n, '
+        'the three shifting modes (expand, trunc, keep), scalars and arrays (array-wide min_pow2 and word growth), shift counts given as Python or NumPy integers. Checked with exact rationals on the implementation output: expand: value(x<<n) = value*2^n, '
         'value(x>>n) = value/2^n, no flag; trunc/keep: format unchanged, x>>n = floor(code/2^n), x<<n exact when representable else inside the range; shift by zero is the identity; operand unchanged; and against the model. '
         'Non-trivial = code != 0 and n > 0; distinct by full input.')
 ASSUMPTIONS = ['the float log2 bit-length formula of << is valid for |code| < 2^47 (n_word <= 32 in the quantifier)']
@@ -18,9 +18,13 @@ def run_cases(cases, res, stratum):
         s, nw, nf = c['f']; n = c['n']; codes = c['codes']; arr = len(codes) > 1
         try:
             x = A.mk(fx, np, s, nw, nf, codes if arr else codes[0], shape=(len(codes),) if arr else None, shifting=c['mode'])
-            l = x << n; r = x >> n
+            nn = n
+            if c.get('count') == 'np.int64': nn = np.int64(n)       # (the shift count as a NumPy integer, e.g. taken from np.arange)
+            elif c.get('count') == 'np.uint8': nn = np.uint8(n)
+            l = x << nn; r = x >> nn
             obs = {'l': (A.fmt_of(l), lib.codes_of(l), lib.status3(l)[:2]), 'r': (A.fmt_of(r), lib.codes_of(r), lib.status3(r)[:2]), 'x_after': lib.codes_of(x),
-                   'x_fmt': A.fmt_of(x)}
+                   'x_fmt': A.fmt_of(x), 'views': (lib.vals_of(l.get_val()), lib.vals_of(np.asarray(l.real)), lib.vals_of(r.get_val()), lib.vals_of(np.asarray(r.real))),
+                   'val_is_array': (isinstance(l.val, np.ndarray), isinstance(r.val, np.ndarray))}
         except Exception as e:
             res.fail(c, 'C14: a shift raised %s' % lib.exc_name(e), got=str(e)[:200]); continue
         pend.append((c, obs))
@@ -41,6 +45,10 @@ def run_cases(cases, res, stratum):
         if obs['x_after'] != codes or obs['x_fmt'] != (s, nw, nf):
             res.fail(c, 'C14: the operand was modified by a shift'); continue
         lo, hi = S.fmt_bounds(s, nw)
+        if list(obs['views']) != [lv, lv, rv, rv]:
+            res.fail(c, 'C14: a value view of the shifted result (get_val(), .real) is not code*2^-n_frac of the result', expected=([str(v) for v in lv], [str(v) for v in rv]), got=[[str(v) for v in w] for w in obs['views']]); continue
+        if obs['val_is_array'] != (True, True):
+            res.fail(c, 'C14: the raw value of a shifted result is not an array (a bare number)', expected=(True, True), got=obs['val_is_array']); continue
         if c['mode'] == 'expand':
             if lv != [v * 2 ** n for v in xs] or sl != (False, False) or fl[0] != s:
                 res.fail(c, 'C14: x << n in expand mode is not x * 2^n exactly', expected=[str(v * 2 ** n) for v in xs], got=([str(v) for v in lv], fl, sl)); continue
@@ -97,7 +105,7 @@ def shard(shard, nshards, rng, tier, extra):
         def code():
             return rng.choice([lo, hi, 0, 1, -1 if s else 1, lo + 1, hi - 1, rng.randint(lo, hi), (rng.randint(lo, hi) >> rng.randint(0, 6)) << rng.randint(0, 6)])
         cs = [max(lo, min(hi, code())) for _ in range(k)]
-        cases.append({'f': [s, nw, nf], 'codes': cs, 'n': n, 'mode': rng.choice(MODES)})
+        cases.append({'f': [s, nw, nf], 'codes': cs, 'n': n, 'mode': rng.choice(MODES), 'count': rng.choice(['int', 'int', 'np.int64', 'np.uint8'])})
     run_cases(cases, res, 'B:boundary-random-to-32')
     res.exhaustive = True
     return res
